@@ -80,6 +80,7 @@ int main (int argc, char **argv)
 	FILE *in = stdin;
 	int quiet_log = 1;
 	(void) argc; (void) argv;
+	qsx_capture_init ();
 	QSexactStart ();
 	if (quiet_log) QSlog_set_handler (qsx_log_sink, NULL);
 #ifdef QSX_VERIF
@@ -91,6 +92,7 @@ int main (int argc, char **argv)
 		const char *op = qsx_tok[0];
 		if (!strcmp (op, "CASE"))
 		{
+			qsx_capture_report ();
 			printf ("CASE %s\n", qsx_ntok > 1 ? qsx_tok[1] : "?");
 		}
 		else if (!strcmp (op, "LP"))
@@ -98,6 +100,13 @@ int main (int argc, char **argv)
 			if (P) mpq_QSfree_prob (P);
 			P = qsx_read_lp (in);
 			printf ("LP %s\n", P ? "OK" : "ERR");
+		}
+		else if (!strcmp (op, "READPROB"))
+		{
+			/* READPROB <file> <LP|MPS> : mpq_QSread_prob (may fail) */
+			mpq_QSdata *np = mpq_QSread_prob (qsx_tok[1], qsx_tok[2]);
+			printf ("READPROB %s\n", np ? "OK" : "NULL");
+			if (np) { if (P) mpq_QSfree_prob (P); P = np; }
 		}
 		else if (!P)
 		{
@@ -161,6 +170,28 @@ int main (int argc, char **argv)
 			QSbasis *B = mpq_QSget_basis (P);
 			fputs ("BASIS", stdout); qsx_print_basis (stdout, B); putchar ('\n');
 			if (B) mpq_QSfree_basis (B);
+		}
+		else if (!strcmp (op, "INFEASARR"))
+		{
+			int m = mpq_QSget_rowcount (P), rv;
+			mpq_t *y = mpq_EGlpNumAllocArray (m + 1);
+			rv = mpq_QSget_infeas_array (P, (qsx_ntok > 1 && !strcmp (qsx_tok[1], "NULL")) ? NULL : y);
+			printf ("INFEASARR %d", rv); if (!rv) qsx_print_qarr (stdout, y, m); putchar ('\n');
+			mpq_EGlpNumFreeArray (y);
+		}
+		else if (!strcmp (op, "PIVOTIN"))
+		{
+			/* PIVOTIN ROW|COL k i1..ik */
+			int k = atoi (qsx_tok[2]), i, rv, *l = (int *) malloc (sizeof (int) * (k + 1));
+			for (i = 0; i < k; i++) l[i] = atoi (qsx_tok[3 + i]);
+			rv = qsx_tok[1][0] == 'R' ? mpq_QSopt_pivotin_row (P, k, l) : mpq_QSopt_pivotin_col (P, k, l);
+			printf ("PIVOTIN %d\n", rv);
+			free (l);
+		}
+		else if (!strcmp (op, "WRITEPROB"))
+		{
+			int rv = mpq_QSwrite_prob (P, qsx_tok[1], qsx_tok[2]);
+			printf ("WRITEPROB %d\n", rv);
 		}
 		else if (!strcmp (op, "KEEPBASIS"))
 		{
@@ -253,5 +284,7 @@ int main (int argc, char **argv)
 	}
 	if (P) mpq_QSfree_prob (P);
 	QSexactClear ();
+	qsx_capture_report ();
+	fflush (qsx_out);
 	return 0;
 }
